@@ -578,3 +578,164 @@ Proof.
   intros name v rest acc a Hf Hk Hl. destruct (cli_long_names_plain name a Hf) as [He [Hh Hv]].
   eapply eq_form_same_as_space_form; eauto.
 Qed.
+
+(* ------------------------------------------------------------------ a declarative reading of the command line *)
+(* an argument vector, item by item, as the manual describes it *)
+Inductive item :=
+| IFlag (name : str)               (* --name *)
+| IOptEq (name v : str)            (* --name=value *)
+| IOptSp (name v : str)            (* --name value *)
+| IWord (v : str).                 (* a positional word *)
+
+Definition render_item (it : item) : list str :=
+  match it with
+  | IFlag name => [long_form name]
+  | IOptEq name v => [long_eq_form name v]
+  | IOptSp name v => [long_form name; v]
+  | IWord v => [v]
+  end.
+Definition render (items : list item) : list str := flat_map render_item items.
+
+Definition plain_name (name : str) : bool :=
+  negb (has_eq name) && negb (str_eqb name "help") && negb (str_eqb name "version").
+
+(* what the manual says each item means, given what was already read: the option it names exists, takes (no) value, was not
+   given before if it may be given once, the value passes the option's value parser and (space form) does not look like an
+   option; a word goes to the next free positional *)
+Definition item_effect (spec : list arg_spec) (acc : list (str * str)) (it : item) : option (list (str * str)) :=
+  match it with
+  | IFlag name =>
+      if plain_name name then
+        match find_long spec name with
+        | Some a => match a_kind a with KFlag => push a "" acc | _ => None end
+        | None => None
+        end
+      else None
+  | IOptEq name v =>
+      if plain_name name then
+        match find_long spec name with
+        | Some a => match a_kind a with KFlag => None | _ => push a v acc end
+        | None => None
+        end
+      else None
+  | IOptSp name v =>
+      if plain_name name && negb (looks_like_option v) then
+        match find_long spec name with
+        | Some a => match a_kind a with KFlag => None | _ => push a v acc end
+        | None => None
+        end
+      else None
+  | IWord v =>
+      if looks_like_option v then None
+      else match next_positional spec acc with Some a => push a v acc | None => None end
+  end.
+Fixpoint items_effect (spec : list arg_spec) (acc : list (str * str)) (items : list item) : option (list (str * str)) :=
+  match items with
+  | [] => Some acc
+  | it :: r => match item_effect spec acc it with Some acc' => items_effect spec acc' r | None => None end
+  end.
+
+Lemma plain_name_facts : forall name, plain_name name = true ->
+  has_eq name = false /\ str_eqb name "help" = false /\ str_eqb name "version" = false.
+Proof.
+  intros name H. unfold plain_name in H. apply andb_true_iff in H. destruct H as [H H3].
+  apply andb_true_iff in H. destruct H as [H1 H2].
+  apply negb_true_iff in H1. apply negb_true_iff in H2. apply negb_true_iff in H3. auto.
+Qed.
+Lemma find_long_nonempty : forall spec name a, find_long spec name = Some a -> name <> "".
+Proof.
+  intros spec name a Hf E. subst. unfold find_long in Hf. apply find_some in Hf. destruct Hf as [_ Hf].
+  apply andb_true_iff in Hf. destruct Hf as [H1 H2]. apply str_eqb_eq in H2. rewrite H2 in H1. discriminate.
+Qed.
+Lemma long_form_not_dashes : forall name, name <> "" -> str_eqb (long_form name) "--" = false.
+Proof. intros name H. unfold long_form. destruct name; [contradiction|reflexivity]. Qed.
+Lemma long_eq_form_not_dashes : forall name v, str_eqb (long_eq_form name v) "--" = false.
+Proof. intros name v. unfold long_eq_form. destruct name; reflexivity. Qed.
+
+(* a word that does not look like an option is neither `--`, nor a long option, nor a short one *)
+Lemma word_is_positional : forall v, looks_like_option v = false -> str_eqb v "--" = false /\ long_body v = None.
+Proof.
+  intros v H. unfold looks_like_option in H.
+  destruct v as [|c r]; [split; reflexivity|].
+  destruct (Ascii.eqb c "-") eqn:Ec.
+  - apply Ascii.eqb_eq in Ec. subst c. cbn in H. destruct r as [|c2 r2]; [split; reflexivity|]. cbn in H. discriminate.
+  - assert (c <> "-"%char) by (intro E; subst; rewrite Ascii.eqb_refl in Ec; discriminate).
+    split.
+    + cbn. rewrite Ec. reflexivity.
+    + unfold long_body. destruct c as [[] [] [] [] [] [] [] []]; try reflexivity. contradiction H0. reflexivity.
+Qed.
+
+(* one item: the scanner does to the rendering of an item exactly what the manual says the item means *)
+Lemma scan_item : forall spec acc it acc', item_effect spec acc it = Some acc' ->
+  forall tail, scan spec (render_item it ++ tail) false acc = scan spec tail false acc'.
+Proof.
+  intros spec acc it acc' H tail. destruct it as [name|name v|name v|v]; cbn [item_effect] in H.
+  - destruct (plain_name name) eqn:Hp; [|discriminate]. destruct (plain_name_facts _ Hp) as [He [Hh Hv]].
+    destruct (find_long spec name) as [a|] eqn:Hf; [|discriminate].
+    pose proof (find_long_nonempty _ _ _ Hf) as Hne.
+    cbn [render_item app]. cbn [scan]. rewrite (long_form_not_dashes _ Hne).
+    change (long_body (long_form name)) with (Some name). cbv iota.
+    rewrite (split_eq_plain name He), Hh, Hv, Hf.
+    destruct (a_kind a); try discriminate. rewrite H. reflexivity.
+  - destruct (plain_name name) eqn:Hp; [|discriminate]. destruct (plain_name_facts _ Hp) as [He [Hh Hv]].
+    destruct (find_long spec name) as [a|] eqn:Hf; [|discriminate].
+    cbn [render_item app]. cbn [scan]. rewrite (long_eq_form_not_dashes name v).
+    change (long_body (long_eq_form name v)) with (Some (str_app name (SCons "=" v))). cbv iota.
+    rewrite (split_eq_joined name v He), Hh, Hv, Hf.
+    destruct (a_kind a); try discriminate; rewrite H; reflexivity.
+  - destruct (plain_name name) eqn:Hp; [|discriminate]. destruct (plain_name_facts _ Hp) as [He [Hh Hv]].
+    destruct (looks_like_option v) eqn:Hl; [discriminate|]. cbn [negb andb] in H.
+    destruct (find_long spec name) as [a|] eqn:Hf; [|discriminate].
+    pose proof (find_long_nonempty _ _ _ Hf) as Hne.
+    cbn [render_item app]. cbn [scan]. rewrite (long_form_not_dashes _ Hne).
+    change (long_body (long_form name)) with (Some name). cbv iota.
+    rewrite (split_eq_plain name He), Hh, Hv, Hf.
+    destruct (a_kind a); try discriminate; rewrite Hl, H; reflexivity.
+  - destruct (looks_like_option v) eqn:Hl; [discriminate|].
+    destruct (word_is_positional v Hl) as [Hd Hb].
+    destruct (next_positional spec acc) as [a|] eqn:Hn; [|discriminate].
+    cbn [render_item app]. cbn [scan]. rewrite Hd, Hb, Hl, Hn, H. reflexivity.
+Qed.
+
+Lemma scan_items : forall spec items acc out, items_effect spec acc items = Some out ->
+  forall tail, scan spec (render items ++ tail) false acc = scan spec tail false out.
+Proof.
+  induction items as [|it r IH]; intros acc out H tail; cbn in H.
+  - inversion H; subst. reflexivity.
+  - destruct (item_effect spec acc it) as [acc'|] eqn:E; [|discriminate].
+    unfold render. cbn [flat_map]. rewrite <- app_assoc. rewrite (scan_item _ _ _ _ E). apply IH. exact H.
+Qed.
+
+(* the manual's reading of a command line IS what the parser computes: any list of items whose effects are defined - in
+   any order, `=` or space form, in front of or behind the positionals - parses to exactly the record of those effects *)
+Lemma manual_reading_is_parsed : forall spec group items out, items_effect spec [] items = Some out ->
+  (group_members_present group out <= 1)%nat -> required_present spec out = true ->
+  parse spec group (render items) = PParsed out.
+Proof.
+  intros spec group items out H Hg Hr. unfold parse.
+  pose proof (scan_items spec items [] out H []) as Hs. rewrite app_nil_r in Hs. rewrite Hs. cbn [scan].
+  apply Nat.ltb_ge in Hg. rewrite Hg, Hr. reflexivity.
+Qed.
+
+(* help / version take effect where they stand: behind any readable prefix, whatever follows, whatever is still missing *)
+Lemma help_where_it_stands : forall spec group items out post, items_effect spec [] items = Some out ->
+  parse spec group (render items ++ "--help" :: post) = PHelp /\
+  parse spec group (render items ++ "-h" :: post) = PHelp /\
+  parse spec group (render items ++ "--version" :: post) = PVersion /\
+  parse spec group (render items ++ "-V" :: post) = PVersion.
+Proof.
+  intros spec group items out post H. unfold parse.
+  repeat split; rewrite (scan_items spec items [] out H); reflexivity.
+Qed.
+
+(* and a usage error in the prefix wins over a later help flag *)
+Lemma unknown_option_rejected : forall spec group items out name post, items_effect spec [] items = Some out ->
+  plain_name name = true -> name <> "" -> find_long spec name = None ->
+  parse spec group (render items ++ long_form name :: post) = PUsage.
+Proof.
+  intros spec group items out name post H Hp Hne Hf. unfold parse. rewrite (scan_items spec items [] out H).
+  destruct (plain_name_facts _ Hp) as [He [Hh Hv]].
+  cbn [scan]. rewrite (long_form_not_dashes _ Hne).
+  change (long_body (long_form name)) with (Some name). cbv iota.
+  rewrite (split_eq_plain name He), Hh, Hv, Hf. reflexivity.
+Qed.
